@@ -33,7 +33,8 @@ ValidEdges == IF Mode # "find" THEN {} ELSE {l \in ListsOfLen(LEN + 1) : FromRan
 
 FixedLists == IF LEN = 2
               THEN {<<"pz", "one", "two">>, <<"nz", "one", "two">>, <<"ninf", "pz", "pinf">>,
-                    <<"pz", "pz", "one">>, <<"m1", "one", "one">>, <<"pz", "nan", "two">>}
+                    <<"pz", "pz", "one">>, <<"m1", "one", "one">>, <<"pz", "nan", "two">>,
+                    <<"pz", "one_up", "two">>, <<"tiny", "one", "two">>}
               ELSE IF LEN = 1 THEN {<<"pz", "one">>, <<"nz", "one">>, <<"ninf", "pinf">>, <<"one", "one">>, <<"one", "pz">>}
               ELSE IF LEN = 3 THEN {<<"m1", "pz", "one", "two">>, <<"m1", "nz", "one", "two">>, <<"ninf", "pz", "pz", "pinf">>, <<"pz", "half", "one">>}
               ELSE IF LEN = 4 THEN {<<"m1", "pz", "half", "one", "two">>, <<"m1", "nz", "half", "one", "two">>, <<"ninf", "m1", "m1", "pz", "pinf">>}
@@ -70,6 +71,7 @@ ExportSlot(s) ==
     LET h == hist[s] IN
     IF ~h.built THEN [built |-> FALSE]
     ELSE [ built |-> TRUE, edges |-> h.edges, bins |-> h.bins,
+           exactviews |-> \A i \in 1..(LEN + 1) : h.edges[i] \notin NearTokens,
            widths  |-> [i \in 1..LEN |-> Enc(Width(h.edges[i], h.edges[i + 1]))],
            centers |-> [i \in 1..LEN |-> Enc(Center(h.edges[i], h.edges[i + 1]))],
            norm    |-> [i \in 1..LEN |-> Enc(Normalized(h.bins[i], h.edges[i], h.edges[i + 1]))],
